@@ -4,6 +4,7 @@ import (
 	"bytes"
 	"encoding/hex"
 	"fmt"
+	"os"
 	"testing"
 
 	"github.com/bytemare/secp256k1"
@@ -23,6 +24,7 @@ type caseH2C struct {
 	NilDst bool       `json:"nil_dst,omitempty"`
 	MsgLay gen.Layout `json:"msg_layout"`
 	DstLay gen.Layout `json:"dst_layout"`
+	Grid   bool       `json:"grid,omitempty"` // member of the exhaustive length grid
 }
 
 var (
@@ -67,9 +69,36 @@ func genH2C(fns []string) func(t *rapid.T) caseH2C {
 	}
 }
 
+// lengthGrid enumerates (message length, DST length) pairs exhaustively over a small rectangle: defects tied to one
+// total pre-image length (buffer sizes, block boundaries, off-by-one in a fast path) are invisible to random lengths.
+func lengthGrid(fns []string) []caseH2C {
+	maxMsg, dls := 300, []int{1, 16, 20, 32, 49, 64, 100, 200, 255, 256, 300}
+	if os.Getenv("VERIF_TIER") == "thorough" {
+		maxMsg = 1100
+		dls = append(dls, 2, 15, 17, 31, 33, 48, 63, 65, 127, 128, 129, 254, 257, 511, 1000)
+	}
+	var out []caseH2C
+	for _, fn := range fns {
+		for _, dl := range dls {
+			dst := make([]byte, dl)
+			for i := range dst {
+				dst[i] = byte(i*13 + dl)
+			}
+			for ml := 0; ml <= maxMsg; ml++ {
+				msg := make([]byte, ml)
+				for i := range msg {
+					msg[i] = byte(i*7 + ml)
+				}
+				out = append(out, caseH2C{Fn: fn, Msg: hex.EncodeToString(msg), Dst: hex.EncodeToString(dst), Grid: true})
+			}
+		}
+	}
+	return out
+}
+
 func fixedH2C(fns []string) func() []caseH2C {
 	return func() []caseH2C {
-		var out []caseH2C
+		out := lengthGrid(fns)
 		for _, fn := range fns {
 			for _, dl := range []int{1, 16, 254, 255, 256, 257, 1000} {
 				for _, post := range []int{0, 1, 64} {
@@ -107,6 +136,7 @@ func runH2C(c caseH2C, o *gen.Obs) error {
 		dst = nil
 	}
 	o.Class("fn:" + c.Fn)
+	o.ClassIf(c.Grid, "length-grid")
 	site := map[string]string{"ro": "HashToGroup", "nu": "EncodeToGroup", "scalar": "HashToScalar"}[c.Fn]
 	got, pnc := callHash(c.Fn, msg, dst)
 	if len(dstData) == 0 {
@@ -168,7 +198,7 @@ var c08 = gen.Register(&gen.Check[caseH2C]{
 	Gen:      genH2C([]string{"ro", "nu"}),
 	Fixed:    fixedH2C([]string{"ro", "nu"}),
 	Run:      runH2C,
-	Required: []string{"dst>255", "dst=255", "dst=256", "dst-spare-capacity", "empty-dst", "fn:ro", "fn:nu", "u0:gx1square=false,signflip=true", "u1:gx1square=true,signflip=false"},
+	Required: []string{"length-grid", "dst>255", "dst=255", "dst=256", "dst-spare-capacity", "empty-dst", "fn:ro", "fn:nu", "u0:gx1square=false,signflip=true", "u1:gx1square=true,signflip=false"},
 })
 
 func TestC08HashToCurve(t *testing.T) { c08.Execute(t) }
@@ -178,7 +208,124 @@ var c09api = gen.Register(&gen.Check[caseH2C]{
 	Gen:      genH2C([]string{"scalar"}),
 	Fixed:    fixedH2C([]string{"scalar"}),
 	Run:      runH2C,
-	Required: []string{"dst>255", "dst=255", "dst=256", "empty-dst"},
+	Required: []string{"length-grid", "dst>255", "dst=255", "dst=256", "empty-dst"},
 })
 
 func TestC09HashToScalar(t *testing.T) { c09api.Execute(t) }
+
+// --- sequences of hashing calls from re-used caller buffers -------------------------------------------------------
+// "A deterministic function of (message, DST)" and "no mutable global state" also mean: what an earlier call saw must
+// not influence a later one. A caller that keeps one buffer and overwrites it between calls is the history that
+// exposes caches keyed by (or aliasing) caller memory.
+
+type h2cStep struct {
+	Fn  string `json:"fn"`
+	Msg string `json:"msg"`
+	Dst string `json:"dst"`
+}
+
+type caseH2CSeq struct {
+	Steps []h2cStep `json:"steps"`
+	Spare int       `json:"spare"` // spare capacity left behind the DST in the shared buffer
+}
+
+func genH2CSeq(fns []string) func(t *rapid.T) caseH2CSeq {
+	return func(t *rapid.T) caseH2CSeq {
+		c := caseH2CSeq{Spare: rapid.SampledFrom([]int{0, 1, 40}).Draw(t, "spare")}
+		n := 2 + gen.Pick(t, "nsteps", 5)
+		dl := rapid.SampledFrom([]int{300, 256, 16, 1000, 255, 49}).Draw(t, "dlen")
+		ml := rapid.IntRange(0, 80).Draw(t, "mlen")
+		var dst, msg []byte
+		for i := 0; i < n; i++ {
+			switch {
+			case i == 0 || gen.Chance(t, "fresh", 1, 4):
+				if gen.Chance(t, "newlen", 1, 3) {
+					dl = rapid.SampledFrom([]int{300, 256, 16, 1000, 255, 49, 257}).Draw(t, "dlen")
+				}
+				dst = rapid.SliceOfN(rapid.Byte(), dl, dl).Draw(t, "dst")
+				msg = rapid.SliceOfN(rapid.Byte(), ml, ml).Draw(t, "msg")
+			default: // same lengths, a few bytes changed in place
+				dst = append([]byte(nil), dst...)
+				dst[rapid.IntRange(0, len(dst)-1).Draw(t, "pos")] ^= byte(1 + rapid.IntRange(0, 254).Draw(t, "flip"))
+				if len(msg) > 0 && rapid.Bool().Draw(t, "msgToo") {
+					msg = append([]byte(nil), msg...)
+					msg[rapid.IntRange(0, len(msg)-1).Draw(t, "mpos")] ^= 0x55
+				}
+			}
+			c.Steps = append(c.Steps, h2cStep{Fn: rapid.SampledFrom(fns).Draw(t, "fn"), Msg: hex.EncodeToString(msg), Dst: hex.EncodeToString(dst)})
+		}
+		return c
+	}
+}
+
+func runH2CSeq(c caseH2CSeq, o *gen.Obs) error {
+	maxD, maxM := 0, 0
+	for _, st := range c.Steps {
+		if l := len(st.Dst) / 2; l > maxD {
+			maxD = l
+		}
+		if l := len(st.Msg) / 2; l > maxM {
+			maxM = l
+		}
+	}
+	dstBuf, msgBuf := make([]byte, maxD+c.Spare), make([]byte, maxM+c.Spare)
+	oversize, inplace := 0, 0
+	prevLen := -1
+	for i, st := range c.Steps {
+		msgData, dstData := gen.HexBytes(st.Msg), gen.HexBytes(st.Dst)
+		if len(dstData) == 0 {
+			continue
+		}
+		copy(dstBuf, dstData) // the caller re-uses its buffers: same backing array, new content
+		copy(msgBuf, msgData)
+		if len(dstData) > 255 {
+			oversize++
+		}
+		if len(dstData) == prevLen {
+			inplace++
+		}
+		prevLen = len(dstData)
+		got, pnc := callHash(st.Fn, msgBuf[:len(msgData)], dstBuf[:len(dstData)])
+		if pnc != nil {
+			return gen.Fail("sequence/panic", "step %d: panic %v", i, pnc)
+		}
+		var want []byte
+		switch st.Fn {
+		case "scalar":
+			want = ref.Bytes32(ref.HashToScalar(msgData, dstData))
+		case "ro":
+			p, _ := ref.HashToCurve(msgData, dstData)
+			want = ref.Compress(p)
+		default:
+			p, _ := ref.EncodeToCurve(msgData, dstData)
+			want = ref.Compress(p)
+		}
+		if !bytes.Equal(got, want) {
+			return gen.Fail("sequence/stale-or-wrong-result", "step %d (%s, msg %d bytes, dst %d bytes, buffers re-used from earlier steps): got %x, want %x", i, st.Fn, len(msgData), len(dstData), got, want)
+		}
+	}
+	o.ClassIf(oversize >= 2, "oversize-dst-twice")
+	o.ClassIf(inplace >= 1, "same-length-overwrite")
+	o.NonTrivialIf(inplace >= 1)
+	return nil
+}
+
+var c08seq = gen.Register(&gen.Check[caseH2CSeq]{
+	Name:     "C08/sequence",
+	Weight:   0.25,
+	Gen:      genH2CSeq([]string{"ro", "nu"}),
+	Run:      runH2CSeq,
+	Required: []string{"oversize-dst-twice", "same-length-overwrite"},
+})
+
+func TestC08Sequence(t *testing.T) { c08seq.Execute(t) }
+
+var c09seq = gen.Register(&gen.Check[caseH2CSeq]{
+	Name:     "C09/sequence",
+	Weight:   0.25,
+	Gen:      genH2CSeq([]string{"scalar"}),
+	Run:      runH2CSeq,
+	Required: []string{"oversize-dst-twice", "same-length-overwrite"},
+})
+
+func TestC09Sequence(t *testing.T) { c09seq.Execute(t) }
